@@ -272,7 +272,7 @@ func VerifHarness_C33_refs() {
 			if v > 0 && packed[n] {
 				badRemove = true
 			}
-			err = views[v].verifRemoveRef(n)
+			err = views[v].RemoveRef(n)
 			if verifPerWorktreeRef(n) {
 				delete(model.per[v], n)
 			} else {
@@ -286,7 +286,7 @@ func VerifHarness_C33_refs() {
 			if v > 0 && len(loose) > 0 {
 				badPack = true
 			}
-			err = views[v].verifPackRefs()
+			err = views[v].PackRefs()
 			if v == 0 {
 				for n := range loose {
 					packed[n] = true
